@@ -251,6 +251,17 @@ pub fn cell_pool(seed: u64) -> Vec<Cell> {
     for &(n, p) in &[(1000u64, 0.25), (1000, 0.75), (64, 0.375), (64, 0.625), (1 << 20, 0.5)] {
         pool.push(Cell::newi(Fam::Binomial, &[n], &[p]));
     }
+    // clone_from partners: same type and length, different totals
+    for fam in crate::families::ALIAS_INT.iter().chain(crate::families::TREE_INT.iter()) {
+        pool.push(Cell::newi(*fam, &[1, 2, 3, 4], &[]));
+        pool.push(Cell::newi(*fam, &[10, 0, 5, 5], &[]));
+    }
+    for fam in [Fam::AliasF, Fam::TreeF] {
+        for ft in [Ft::F32, Ft::F64] {
+            pool.push(Cell::new(fam, ft, &[1.0, 2.0, 3.0, 4.0]));
+            pool.push(Cell::new(fam, ft, &[10.0, 0.0, 5.0, 5.0]));
+        }
+    }
     pool.retain(|c| build(c).is_ok() && !(c.fam == Fam::Hypergeometric && c.ip[0] > 1 << 30));
     pool
 }
@@ -329,6 +340,30 @@ pub fn run(ctx: &Ctx) {
         (Cell::new(Fam::Normal, Ft::F64, &[0.0, 1.0]), Cell::new(Fam::Normal, Ft::F32, &[0.0, 1.0])),
         (Cell::new(Fam::Gamma, Ft::F64, &[0.5, 1.0]), Cell::new(Fam::Gamma, Ft::F64, &[1.5, 1.0])),
     ];
+    // clone_from between values of the same type (every family that has two differently parameterised pool cells)
+    let mut by_type: std::collections::BTreeMap<(Fam, Ft, usize, usize), Vec<Cell>> = std::collections::BTreeMap::new();
+    for c in &pool {
+        by_type.entry((c.fam, c.ft, c.p.len(), c.ip.len())).or_default().push(c.clone());
+    }
+    for (_, v) in by_type.iter() {
+        if v.len() < 2 {
+            continue;
+        }
+        for k in 0..(v.len() - 1).min(3) {
+            let (a, b) = (v[k].clone(), v[v.len() - 1 - k].clone());
+            if a == b {
+                continue;
+            }
+            let steps = vec![(0, Action::SampleShared), (1, Action::SampleShared), (1, Action::CloneFrom(0)), (1, Action::SampleShared), (0, Action::SampleShared), (0, Action::CloneFrom(1)), (0, Action::IterTake(3)), (1, Action::CloneAndSample)];
+            let s = Schedule { cells: vec![a.clone(), b], steps, seed: hseed(&[ctx.seed, k as u64, 0xC10F]) };
+            ctx.eval(1);
+            let o = run_schedule(&s);
+            ctx.nontrivial(hseed(&[crate::rng::hstr(&a.key()), k as u64, 7]));
+            if let Some((sym, msg)) = o.violation {
+                report(ctx, &s, &sym, &msg);
+            }
+        }
+    }
     for (a, b) in pairs.iter() {
         for order in 0..2 {
             let cells = if order == 0 { vec![a.clone(), b.clone()] } else { vec![b.clone(), a.clone()] };
